@@ -94,6 +94,16 @@ pub fn gen_profile(rng: &mut Rng, focus: Focus, thorough: bool) -> Profile {
         p_zero: *rng.pick(&[0.0, 0.05, 0.2, 0.5]),
         max_hundredths: *rng.pick(&[100, 10_000, 1_000_000, 10_000_000]),
     };
+    // a large file now and then (over 1 MiB of text: hourly series for a dozen systems), in every tier: sizes at which
+    // a program may switch to another way of reading or parsing
+    if rng.chance(if thorough { 0.0005 } else { 0.0002 }) {
+        p.steps = 8760;
+        p.n_systems = 6 + rng.usize(6);
+    }
+    // magnitudes far apart within one series (1e9 kWh next to hundredths): sums that absorb a small term
+    if rng.chance(0.02) {
+        p.max_hundredths = 100_000_000_000;
+    }
     match focus {
         Focus::General => {}
         Focus::Env => {
